@@ -2,6 +2,7 @@ use crate::common::*;
 pub mod rel;
 pub mod offset;
 pub mod utf8;
+pub mod related;
 
 pub fn run(family: &str, opts: &Opts) -> Option<Report> {
     // "family@m<interval>s<0|1>" runs the family under a store configuration variant
@@ -26,6 +27,7 @@ fn run_base(family: &str, opts: &Opts) -> Option<Report> {
         "rel" => Some(rel::run(opts)),
         "offset" => Some(offset::run(opts)),
         "utf8" => Some(utf8::run(opts)),
+        "related" => Some(related::run(opts)),
         _ => None,
     }
 }
@@ -36,6 +38,7 @@ pub fn exec_line(line: &str) -> Option<String> {
         Some("rel") => Some(rel::exec_line(line)),
         Some("off") => Some(offset::exec_line(line)),
         Some("u8") => Some(utf8::exec_line(line)),
+        Some("find") => Some(related::exec_line(line)),
         _ => None,
     }
 }
